@@ -224,6 +224,15 @@ def c02(tier):
             continue
         out.append(T("chain_%s_%s" % (a, b), base[b](base[a]("DS_1")), n))
     out.append(T("chain_rename_filter9", filter_(rename("DS_1", [("Me_1", "Me_9")]), binop(">", "Me_9", 1)), n))
+    rid = lambda: rename("DS_1", [("Id_2", "Id_9")])  # noqa: E731
+    out.append(T("chain_renameid_keep", keep(rid(), ["Me_1"]), n))
+    out.append(T("chain_renameid_drop", drop(rid(), ["Me_1"]), n))
+    out.append(T("chain_renameid_filter", filter_(rid(), binop("=", "Id_9", const("a"))), n))
+    out.append(T("chain_renameid_calc", calc(rid(), [("measure", "Me_3", binop("||", "Id_9", const("x")))]), n))
+    out.append(T("chain_renameid_sub", sub(rid(), [("Id_9", "a")]), n))
+    out.append(T("chain_renameid_agg", agg("sum", rid(), "group by", ["Id_9"]), n))
+    out.append(T("chain_calcattr_keep", keep(calc("DS_1", [("attribute", "At_1", binop("+", "Me_1", 1))]), ["Me_1"]), n))
+    out.append(T("chain_calcattr_rename_keep", keep(rename(calc("DS_1", [("attribute", "At_1", binop("+", "Me_1", 1))]), [("At_1", "At_2")]), ["At_2"]), n))
     out.append(T("chain_calc_filter_new", filter_(calc("DS_1", [("measure", "Me_3", binop("+", "Me_1", "Me_2"))]), binop(">", "Me_3", 2)), n))
     out.append(T("chain_calc_keep_new", keep(calc("DS_1", [("measure", "Me_3", binop("+", "Me_1", "Me_2"))]), ["Me_3"]), n))
     # clause on a join result, including a computed component that shares its name with qualified ones
@@ -266,6 +275,10 @@ def c03(tier):
     for op in ("min", "max"):
         out.append(T("%s_str" % op, agg(op, "DS_7S", "group by", ["Id_1"]), n, structs=POOL + [S("DS_7S", ID2, [("Me_1", "String")])]))
     out.append(T("sum_three_ids", agg("sum", "DS_7", "group by", ["Id_1", "Id_3"]), n))
+    for op in ("sum", "max", "avg"):
+        out.append(T("%s_group_except_all_ids" % op, agg(op, "DS_4", "group except", ["Id_1", "Id_2"]), n))
+    out.append(T("sum_group_except_all_having", agg("sum", "DS_4", "group except", ["Id_1", "Id_2"], having(binop(">", agg("max", "Me_1"), 1))), n))
+    out.append(T("aggr_group_except_all", aggr("DS_4", [("measure", "Me_9", "sum", "Me_1")], "group except", ["Id_1", "Id_2"]), n))
     out.append(T("sum_three_ids_except", agg("sum", "DS_7", "group except", ["Id_2"]), n))
     out.append(T("having_sum", agg("sum", "DS_4", "group by", ["Id_1"], having(binop(">", agg("sum", "Me_1"), 3))), n))
     out.append(T("having_count", agg("max", "DS_4", "group by", ["Id_1"], having(binop(">", agg("count"), 1))), n))
@@ -376,6 +389,9 @@ RULES = {
     # non-associative table
     "enum_nonassoc": (lambda: viral_def("vp1", "At_1", enumerated=[(["a", "b"], "c"), (["c"], "a"), (["a"], "b")], default="c"), "String"),
     "enum_default_only": (lambda: viral_def("vp1", "At_1", enumerated=[], default="a"), "String"),
+    # clauses on the null value: alone and paired
+    "enum_null_clause": (lambda: viral_def("vp1", "At_1", enumerated=[([None], "c"), (["a"], "b")], default="a"), "String"),
+    "enum_null_pair": (lambda: viral_def("vp1", "At_1", enumerated=[(["a", None], "c"), (["b"], "b")], default="a"), "String"),
     "agg_min": (lambda: viral_def("vp1", "At_1", aggregate="min"), "Integer"),
     "agg_max": (lambda: viral_def("vp1", "At_1", aggregate="max"), "Integer"),
     "agg_sum": (lambda: viral_def("vp1", "At_1", aggregate="sum"), "Integer"),
@@ -386,7 +402,7 @@ RULES = {
 def c28(tier):
     n = 2 if tier == "quick" else 3
     out = []
-    rules = list(RULES) if tier != "quick" else ["enum_pair_first", "enum_pair_last", "enum_nonassoc", "agg_min", "agg_max", "agg_sum", "agg_avg"]
+    rules = list(RULES) if tier != "quick" else ["enum_pair_first", "enum_pair_last", "enum_nonassoc", "enum_null_clause", "enum_null_pair", "agg_min", "agg_max", "agg_sum", "agg_avg"]
     for rn in rules:
         mk, vt = RULES[rn]
         st = _vstructs(vt)
@@ -436,7 +452,7 @@ def c06(tier):
         ops += ["median", "var_pop", "stddev_samp"]
     for op in ops:
         for wn, w in wins.items():
-            if tier == "quick" and op not in ("sum", "first_value", "count") and wn not in ("default", "p1_f1", "p2_p1"):
+            if tier == "quick" and op not in ("sum", "first_value", "count") and wn not in ("default", "p1_f1", "p2_p1") and not (op == "last_value" and wn == "all"):
                 continue
             nn = min(n, 3) if op in ("median", "var_pop", "stddev_samp") else n
             out.append(T("ds_%s_%s" % (op, wn), analytic(op, "DS_4", win=w, **P1), nn))
@@ -538,7 +554,7 @@ def c08(tier):
             res.append(d)
         out.extend(res)
     C = lambda items: calc("DS_M", [("measure", n, e) for n, e in items])  # noqa: E731
-    shifts = [1, -1, 3, -3, 12, 53, -60, 0] if tier != "quick" else [1, -1, 5, 0]
+    shifts = [1, -1, 3, -3, 12, 53, -60, 0, -4, -13] if tier != "quick" else [1, -1, 5, 0, -4, -13]
     for n in shifts:
         TT("timeshift_%s" % str(n).replace("-", "m"), binop("timeshift", "DS_T", n), 2, INDS)
     TT("period_indicator_ds", unop("period_indicator", "DS_T"), 2)
